@@ -43,8 +43,8 @@ def run(ctx, rep):
             "a sample whose lifespan has already elapsed at write time is handed to the RTPS writer; witness %s" % found.get(bb))
     # the expiry computation uses timestamp, now and the lifespan
     ok = False
-    for sb, ce in fc.ces.items():
-        c = cmp_norm(E.strip_casts(ce.expr))
+    from rules.common import all_comparisons
+    for sb, cline, c in all_comparisons(fc):
         if c and (E.mentions_field(c[1], "as Finite") or E.mentions_field(c[2], "as Finite")):
             x = c[1] if E.mentions_field(c[1], "as Finite") else c[2]
             ok = E.mentions_local_named(fc.mir, x, "sample_timestamp") and E.mentions_local_named(fc.mir, x, "now")
@@ -61,9 +61,8 @@ def run(ctx, rep):
         if k.kind.startswith("Const") or k.kind.startswith("Static"):
             continue
         kf = FnCtx(k)
-        for d in kf.mir.whole_defs(0):
-            e = kf._def_expr(d)
-            c = cmp_norm(e)
+        for sb2, cline2, c in all_comparisons(kf):
+            e = ("bin", c[0], c[1], c[2])
             if c:
                 op, x, y = c
                 if E.is_call(E.strip_casts(y), "Add::add") and E.mentions_field(y, "lifespan") and not E.mentions_field(x, "lifespan"):
